@@ -443,21 +443,72 @@ func GuardF49(d *document.Document, s Step) (Step, string) {
 		if parent == nil || parent.RemovedAt() != nil {
 			return Step{}, "F49"
 		}
-		// variant c: the reverse of an array delete is an Add anchored on the
-		// element that preceded the deleted one at delete time; when a peer has
-		// removed that element meanwhile (the undoer knows the tombstone, or has
-		// purged it) the undo still pushes the Add, and a replica that has purged
-		// the anchor fails 'insertAfter ...: child not found' for ever
-		if add, ok := h.Op.(*operations.Add); ok {
-			prev := add.PrevCreatedAt()
-			if prev != nil && prev.Compare(time.InitialTicket) != 0 && prev.Compare(h.Op.ParentCreatedAt()) != 0 {
-				if anchor := root.FindByCreatedAt(prev); anchor == nil || anchor.RemovedAt() != nil {
-					return Step{}, "F49"
+	}
+	return s, ""
+}
+
+// GuardF49Anchors — variant c of F49 (arrays): the reverse of an array delete
+// is an Add anchored on the element that preceded the deleted one. The code
+// under test picks the nearest LIVE predecessor when the delete executes; the
+// known defect is that a peer may remove that element afterwards (the undoer
+// learns of it, some replica purges it) and the undo still pushes the Add
+// ('insertAfter ...: child not found' where the anchor was purged). The harness
+// records, right after every edit, whether the anchor of each stacked Add was
+// live at that moment; an undo/redo is skipped only when its anchor WAS live
+// then and is removed or purged now. An Add whose anchor was a tombstone from
+// the start is a different defect (not this finding) and is executed.
+func GuardF49Anchors(r *Runner) Guard {
+	liveAtCreation := map[string]bool{} // document pointer + value createdAt -> anchor live when first seen on the stack
+	key := func(d *document.Document, add *operations.Add) string {
+		return fmt.Sprintf("%p/%s", d, add.Value().CreatedAt().Key())
+	}
+	anchorState := func(d *document.Document, add *operations.Add) (exists, live, head bool) {
+		prev := add.PrevCreatedAt()
+		if prev == nil || prev.Compare(time.InitialTicket) == 0 || prev.Compare(add.ParentCreatedAt()) == 0 {
+			return true, true, true
+		}
+		anchor := d.InternalDocument().Root().FindByCreatedAt(prev)
+		if anchor == nil {
+			return false, false, false
+		}
+		return true, anchor.RemovedAt() == nil, false
+	}
+	observe := func(p *Peer) {
+		for _, stack := range [][]document.HistoryOperation{p.D.UndoStackTopForTest(), p.D.RedoStackTopForTest()} {
+			for _, h := range stack {
+				if add, ok := h.Op.(*operations.Add); ok {
+					k := key(p.D, add)
+					if _, seen := liveAtCreation[k]; !seen {
+						_, live, _ := anchorState(p.D, add)
+						liveAtCreation[k] = live
+					}
 				}
 			}
 		}
 	}
-	return s, ""
+	prevOnEdit := r.OnEdit
+	r.OnEdit = func(r *Runner, p *Peer) {
+		observe(p)
+		if prevOnEdit != nil {
+			prevOnEdit(r, p)
+		}
+	}
+	return func(d *document.Document, s Step) (Step, string) {
+		for _, h := range undoTop(d, s) {
+			add, ok := h.Op.(*operations.Add)
+			if !ok {
+				continue
+			}
+			_, live, head := anchorState(d, add)
+			if head || live {
+				continue
+			}
+			if wasLive, seen := liveAtCreation[key(d, add)]; !seen || wasLive {
+				return Step{}, "F49"
+			}
+		}
+		return s, ""
+	}
 }
 
 // GuardF33 — an undo/redo that RESTORES removed text/tree content by identity
